@@ -102,7 +102,7 @@ type HTMLPlanted struct {
 	Depth  int    `json:"depth"`            // number of wrapper elements around it inside head/body
 	TokIn  string `json:"tokin"`            // path | query
 	Amp    string `json:"amp,omitempty"`    // "raw" | "escaped" when the reference contains '&' inside an attribute
-	Pad    string `json:"pad,omitempty"`    // Go-quoted lead+trail padding (class Pad) or "srcset-ws"
+	Pad    string `json:"pad,omitempty"`    // lead + "|" + trail padding (class Pad) or "srcset-ws"
 	Ref    WFRef  `json:"ref"`
 	Text   string `json:"text"` // Ref.Text(): the reference as a browser sees it after HTML/CSS unescaping
 }
@@ -145,6 +145,7 @@ type HTMLOpts struct {
 	Pad      bool // pad every planted attribute value / url() argument with ASCII white space
 	SrcsetWS bool // tab / newline between srcset URL and descriptor
 	MaxItems int  // upper bound of planted items (default 8)
+	Anchors  bool // mostly <a href> constructs in the body (outlink facets)
 }
 
 var htmlVoid = map[string]bool{"img": true, "link": true, "source": true, "meta": true, "br": true, "hr": true, "input": true}
@@ -343,7 +344,7 @@ func (g *htmlGen) pad(css bool) (string, string, string) {
 	default:
 		lead, trail = g.pick("padlead", pads), g.pick("padtrail", pads)
 	}
-	return lead, trail, fmt.Sprintf("%q", lead+"|"+trail)
+	return lead, trail, lead + "|" + trail
 }
 
 // attrValue plants one reference as the value of a URL attribute; returns the attribute and fills p.
@@ -579,6 +580,9 @@ var htmlLinkRels = []string{"stylesheet", "stylesheet", "icon", "shortcut icon",
 func (g *htmlGen) item(head bool) (HTMLNode, []HTMLPlanted) {
 	kinds := []string{"img", "img-srcset", "img-both", "a", "a", "a-img", "picture", "video-src", "video-source", "audio-src", "audio-source",
 		"script", "link", "style", "style-attr", "style-attr"}
+	if g.o.Anchors {
+		kinds = []string{"a", "a", "a", "a", "a", "a-img", "a-img", "img", "style-attr", "script"}
+	}
 	if head {
 		kinds = []string{"link", "link", "script", "style"}
 	}
